@@ -437,9 +437,9 @@ func runMutation(em *emitter, root string, id int, c mutCase, seed []seedDoc, fi
 			return nil
 		}
 	}
-	diffRun := func(a, b string) func() error {
+	diffRun := func(a, b string, stop bool, format string) func() error {
 		return func() error {
-			obs, _ := run.Diff(a, b, w, conc, false, "")
+			obs, _ := run.Diff(a, b, w, conc, stop, format)
 			if obs.Outcome == "panic" {
 				panic(obs.ErrMsg)
 			}
@@ -455,10 +455,17 @@ func runMutation(em *emitter, root string, id int, c mutCase, seed []seedDoc, fi
 	note("list-stop-dot", o, d)
 	o, d = guarded(listRun(xdir, run.ListOpts{Exposure: true}))
 	note("exposure", o, d)
-	o, d = guarded(diffRun(dir, seedDir))
+	o, d = guarded(diffRun(dir, seedDir, false, ""))
 	note("diff1", o, d)
-	o, d = guarded(diffRun(seedDir, dir))
+	o, d = guarded(diffRun(seedDir, dir, false, ""))
 	note("diff2", o, d)
+	// stop-on-error takes other paths through the analyzers (results handed back early)
+	o, d = guarded(diffRun(dir, seedDir, true, "md"))
+	note("diff1-stop", o, d)
+	o, d = guarded(diffRun(seedDir, dir, true, "csv"))
+	note("diff2-stop", o, d)
+	o, d = guarded(listRun(xdir, run.ListOpts{Exposure: true, StopOnError: true, Format: "json"}))
+	note("exposure-stop-json", o, d)
 	o, d = guarded(func() error { return evalSweep(dir) })
 	note("eval", o, d)
 	if bin != "" {
